@@ -11,6 +11,9 @@ def run(ctx):
     ctx.cov["sanity"] = "StepBack=FALSE (merge pass of the pinned commit): TLC reports Increasing violated after %d states" % r["distinct"]
     cfgs = ["MC_valid.cfg", "MC_bytes.cfg"] if ctx.tier == "quick" else ["MC_valid_t.cfg", "MC_bytes_t.cfg"]
     vlib.case_component(ctx, "TrieReplace", "MultiMatch", "MultiMatch", cfgs, "c05", overlays=["algz"], extra_args=["-prop", "C06"], tlc_timeout=3000)
+    # the automaton under Replace / ReplaceWithMask is the same as under FindAll: its failure links against AhoImpl.tla
+    vlib.case_component(ctx, "AhoLinks", "MultiMatch", "AhoImpl", ["MC_aho_quick.cfg", "MC_aho_thorough.cfg"], "c05",
+                        extra_args=["-prop", "C05"], tlc_timeout=3000, overlays=["algz"], workers=8)
     ctx.assumptions += ["patterns are drawn from a pool of 15 patterns (shared prefixes, suffix/infix relations, 1-4 byte runes, U+FFFD) in sets of <= 2 (quick) / 3 (thorough); texts are all rune sequences over {a, b, zhong, shi} and all byte sequences over 8 bytes (incl. 0xFF and truncated runes) up to 4 / 5 symbols",
                         "patterns are also inserted in reverse order with a duplicate and an empty pattern"]
 
